@@ -1,0 +1,93 @@
+//go:build verif
+
+package indcpacom
+
+// Contracts for the deductive checker in /verif (comment-only; compiled only under the verif tag).
+// The encryption key is abstract: each of its operations is a deterministic function of its arguments.
+
+//@ func NewCommitment
+//@   property C18, C12
+//@   purefn
+//@   ensures (err == nil) == !utils.IsNil(c)
+//@   ensures err == nil ==> result != nil && result.c == c
+
+//@ func NewWitness
+//@   property C18, C12
+//@   purefn
+//@   ensures (err == nil) == !utils.IsNil(s)
+//@   ensures err == nil ==> result != nil && result.s == s
+
+//@ func NewMessage
+//@   property C18, C12
+//@   purefn
+//@   ensures (err == nil) == !utils.IsNil(m)
+//@   ensures err == nil ==> result != nil && result.m == m
+
+//@ func NewCommitmentKey
+//@   property C18, C12
+//@   purefn
+//@   ensures (err == nil) == !utils.IsNil(encryptionKey)
+//@   ensures err == nil ==> result != nil && result.encryptionKey == encryptionKey
+
+//@ func (*Commitment).Value
+//@   property C18
+//@   purefn
+//@   ensures result == c.c
+
+//@ func (*Witness).Value
+//@   property C18
+//@   purefn
+//@   ensures result == w.s
+
+//@ func (*Message).Value
+//@   property C18
+//@   purefn
+//@   ensures result == m.m
+
+//@ func (*Commitment).Equal
+//@   property C18
+//@   purefn
+//@   ensures (c == nil || other == nil) ==> result == (c == other)
+//@   ensures (c != nil && other != nil) ==> result == c.c.Equal(other.c)
+
+// The commitment is the encryption of the message under the witness as nonce.
+//@ func (*CommitmentKey).CommitWithWitness
+//@   property C18
+//@   purefn
+//@   ensures (message == nil || witness == nil) ==> err != nil
+//@   ensures err == nil ==> result != nil && result.c == res(k.encryptionKey.EncryptWithNonce(message.m, witness.s), 0) && res(k.encryptionKey.EncryptWithNonce(message.m, witness.s), 1) == nil
+
+//@ func (*CommitmentKey).Open
+//@   property C18
+//@   purefn
+//@   ensures (result == nil && commitment != nil) ==> res(k.encryptionKey.EncryptWithNonce(message.m, witness.s), 0).Equal(commitment.c)
+//@   ensures (commitment != nil && res(k.CommitWithWitness(message, witness), 1) == nil && !res(k.encryptionKey.EncryptWithNonce(message.m, witness.s), 0).Equal(commitment.c)) ==> result != nil
+
+// Homomorphic combination forwards EVERY operand to the underlying ciphertext / plaintext / nonce operation.
+//@ func (*HomomorphicCommitmentKey).CommitmentOp
+//@   property C18
+//@   ensures err == nil ==> exists vs []C :: len(vs) == len(rest) && (forall j int :: 0 <= j && j < len(rest) ==> rest[j] != nil && vs[j] == rest[j].Value()) && result != nil && result.c == res(k.encryptionKey.CiphertextOp(first.c, second.c, vs), 0)
+
+//@ func (*HomomorphicCommitmentKey).MessageOp
+//@   property C18
+//@   ensures err == nil ==> exists vs []P :: len(vs) == len(rest) && (forall j int :: 0 <= j && j < len(rest) ==> rest[j] != nil && vs[j] == rest[j].Value()) && result != nil && result.m == res(k.encryptionKey.PlaintextOp(first.m, second.m, vs), 0)
+
+//@ func (*HomomorphicCommitmentKey).WitnessOp
+//@   property C18
+//@   ensures err == nil ==> exists vs []N :: len(vs) == len(rest) && (forall j int :: 0 <= j && j < len(rest) ==> rest[j] != nil && vs[j] == rest[j].Value()) && result != nil && result.s == res(k.encryptionKey.NonceOp(first.s, second.s, vs), 0)
+
+//@ func (*HomomorphicCommitmentKey).CommitmentScalarOp
+//@   property C18
+//@   ensures err == nil ==> result != nil && result.c == res(k.encryptionKey.CiphertextScalarOp(c.c, scalar), 0)
+
+//@ func (*HomomorphicCommitmentKey).CommitmentOpInv
+//@   property C18
+//@   ensures err == nil ==> result != nil && result.c == res(k.encryptionKey.CiphertextOpInv(c.c), 0)
+
+//@ func (*HomomorphicCommitmentKey).ReRandomise
+//@   property C18
+//@   ensures err == nil ==> result != nil && result.c == res(k.encryptionKey.ReRandomise(c.c, witnessShift.s), 0)
+
+//@ func (*HomomorphicCommitmentKey).Shift
+//@   property C18
+//@   ensures err == nil ==> result != nil && result.c == res(k.encryptionKey.Shift(c.c, message.m), 0)
